@@ -10,6 +10,8 @@ import Anko.Model.Eval
 import Anko.Proofs.EvalMono
 import Anko.Proofs.EvalProbe
 import Anko.Gen.Operators
+import Anko.Gen.CallFlow
+import Anko.Props.CallFlowTable
 
 set_option linter.unusedSectionVars false
 set_option linter.unusedSimpArgs false
@@ -294,5 +296,14 @@ theorem no_arm_evaluates_an_operand_again :
   decide +kernel
 
 example : mentions "runInfo.invokeExpr()" "invokeExpr" = true ∧ mentions "R = nilValue" "invokeExpr" = false := by decide +kernel
+
+/-! ### The call machinery in the source (regenerated: Gen/CallFlow)
+
+Every leaf statement of anonCallExpr, callExpr, callVMFunctionDirect, goRun, makeCallArgs and processCallReturnValues, with the
+conditions it stands under, is the one written down in Props/CallFlowTable next to the model's call evaluation: where each argument
+expression is evaluated (once, in source order), where the count is checked (before any argument), where a conversion can end the
+call, which path a callee takes. A new fast path, an argument evaluated in another place or a second time, a check moved behind an
+evaluation makes the tables differ. -/
+theorem calls_evaluate_their_arguments_as_modelled : Gen.CallFlow.leaves = Tables.callFlow := by decide +kernel
 
 end Anko.C07
